@@ -613,7 +613,12 @@ def clean_targets(task, dryrun):
                 msg = "%s - removing dir '%s'"
                 print(msg % (task.name, target))
                 if not dryrun:
-                    os.rmdir(target)
+                    if os.path.islink(target):
+                        # a symbolic link to an empty directory: remove the
+                        # link itself, os.rmdir refuses a link
+                        os.remove(target)
+                    else:
+                        os.rmdir(target)
 
 
 # uptodate
